@@ -36,6 +36,16 @@ def run(ctx):
         per_diff_length(ctx, "R15.1b", a)
     ctx.floor("R15.1", n, 22)
     r15_2(ctx)
+    # the bound also rests on the Head/Tail structural rules and on the order in which buffered diffs leave
+    from . import groups, c09 as _c09
+    for _n in ("head", "tail"):
+        _a = ads[_n]
+        if None not in (_a.translator, _a.poll, _a.update, _a.closure):
+            _c09.r09_3(ctx, _a)
+            _c09.r09_5(ctx, _a)
+            _c09.r09_8(ctx, _a)
+    groups.util_buffers(ctx)
+
 
 
 def r15_1(ctx, a):
